@@ -474,8 +474,11 @@ def json_shape(rng: Rng, tok: dict, family: str):
     notes = []
     for _ in range(rng.randrange(1, 4)):
         if family == "jws":
-            choice = rng.pick(["payload", "protected", "signature", "header", "signatures", "drop-optional"])
-            if choice == "signatures":
+            choice = rng.pick(["payload", "protected", "signature", "header", "signatures", "drop-optional", "detached"])
+            if choice == "detached":
+                # the shape jws.detach_content() emits (RFC 7515 appendix F): no payload member
+                tok.pop("payload", None)
+            elif choice == "signatures":
                 n = rng.randrange(0, 4)
                 tok = {"payload": tok.get("payload", "")}
                 tok["signatures"] = []
